@@ -206,9 +206,16 @@ def judge_run(sp, r, tag):
         msg = str(r['exc'])
         if 'interrupted' in msg:
             return [], 'sqlite_budget'
+        # what ran before the failing statement is judged for order only (the log is
+        # cut short, so counts and iteration sequences say nothing)
         pre = plans.check_log(sp, r['calls'][:-1], r['budget']) if r['calls'] else []
-        pre = [x for x in pre if x[0].startswith(('dep_order', 'iter_', 'unknown'))]
-        if 'no such table' in msg:
+        pre = [(tag + b, d) for b, d in pre if b.startswith('dep_order')]
+        m = re.search(r'no such table: (\S+)', msg)
+        made = set()
+        for sqls in sp.actions.values():
+            for s in sqls:
+                made |= sql_io(s)[0]
+        if m and m.group(1) in made:
             return pre + [(tag + 'sql_no_such_table', '%s\nin statement of %s:\n%s' % (
                 msg, sp.owner.get(r['sqlerr']['sql']), r['sqlerr']['sql'][:600]))], None
         return [], 'sql_error:' + msg.split(':')[0][:40]
@@ -226,9 +233,25 @@ def table_key(t):
     return [list(hdr), sorted(repr(tuple(r)) for r in rows)]
 
 
+_HEAD = re.compile(r'^([A-Z]\w*)\(', re.M)
+_CALL = re.compile(r'\b([A-Z]\w*)\(')
+
+
+def in_domain(text, request):
+    """Every predicate that is called or requested is defined by the program (an
+    undefined name would be an external table that nobody creates)."""
+    body = '\n'.join(l for l in text.split('\n') if not l.startswith('@'))
+    heads = set(_HEAD.findall(body))
+    return set(_CALL.findall(body)) <= heads and set(request) <= heads and \
+        len(set(request)) == len(request) and bool(request)
+
+
 def check_program(text, request):
     """Full domain-B check of one (program, request).  -> Outcome."""
     o = Outcome()
+    if not in_domain(text, request):
+        o.inconclusive = 'outside_domain'
+        return o
     try:
         rules = drive.parse_rules(text)
         exs = compile_execs(rules, request)
